@@ -32,7 +32,8 @@ fn box_setup(rng: &mut Rng, min_waist: f64, max_waist: f64) -> Result<(SPDC, Val
   };
   let pm_type = *rng.pick(&TYPES);
   let poled = rng.coin();
-  let length = rng.log_range(0.5e-3, 20e-3);
+  // corners of the box are over-sampled: longest crystal, smallest waists (largest diffraction / walk-off corrections)
+  let length = if rng.below(4) == 0 { 20e-3 } else { rng.log_range(0.5e-3, 20e-3) };
   let temp_c = rng.range(15., 60.);
   // wavelengths inside the transparency window (idler up to 2.5 x pump wavelength x 1.25)
   let lp_lo = lo * 1.05;
@@ -42,9 +43,10 @@ fn box_setup(rng: &mut Rng, min_waist: f64, max_waist: f64) -> Result<(SPDC, Val
   }
   let lp = rng.range(lp_lo, lp_hi.min(lp_lo * 2.5));
   let ls = if rng.below(4) == 0 { 2. * lp } else { 2. * lp * rng.range(0.8, 1.25) };
-  let wp = rng.log_range(min_waist, max_waist);
-  let ws = rng.log_range(min_waist, max_waist);
-  let wi = rng.log_range(min_waist, max_waist);
+  let mut waist = |rng: &mut Rng| if rng.below(3) == 0 { min_waist } else { rng.log_range(min_waist, max_waist) };
+  let wp = waist(rng);
+  let ws = waist(rng);
+  let wi = waist(rng);
   let theta_c = if poled { *rng.pick(&[90., 90., 60., 35., 25.]) } else { 45. };
   let phi_c = if rng.coin() { 0. } else { rng.range(0., 90.) };
   let mut cs = CrystalSetup {
